@@ -9478,3 +9478,7 @@ mod tests {
         Ok(())
     }
 }
+
+#[cfg(kani)]
+#[path = "/verif/harness/anda_db/collection.rs"]
+mod verif_kani;
